@@ -26,6 +26,7 @@ func C07(r *core.Run) {
 	containerPairs(r, "internal/j5s/j5convert", "internal/j5s/sourcewalk")
 	rules.ImportPairing(r)
 	headerDescriptionOwner(r)
+	entityNameAgreement(r)
 	fieldAttributes(r) // incl. the name of the synthetic map entry message: a mismatch with the field name is a link error
 	r.Floor("R-EXT/G3", 25, "one per SetExtension site in j5convert")
 }
